@@ -991,6 +991,8 @@ def _dict_method(I, d, name):
         return BoundBuiltin(lambda: list(d.values()))
     if name == "get":
         return BoundBuiltin(lambda k, default=None: d.get(canon_key(d.keys(), k), default))
+    if name == "__getitem__":
+        return BoundBuiltin(lambda k: getitem(I, d, k))
     if name == "copy":
         return BoundBuiltin(lambda: dict(d))
     if name == "clear":
@@ -1500,7 +1502,7 @@ def make_builtins(I):
         "bool": lambda x=False: I.truth(x), "float": lambda x=0.0: x, "abs": lambda x: zite(to_z3(x) >= 0, x, -x) if is_z3(x) else abs(x),
         "iter": lambda x: x if isinstance(x, IterVal) else IterVal(x), "next": b_next,
         "reversed": lambda x: list(reversed(iterate(I, x))), "dict": lambda x=(), **kw: {**({hashable(k): v for k, v in (x.items() if isinstance(x, dict) else iterate(I, x))}), **kw},
-        "getattr": b_getattr, "hasattr": lambda o, n: _has(I, o, n), "print": lambda *a, **k: None, "id": lambda o: id(o),
+        "getattr": b_getattr, "hasattr": lambda o, n: _has(I, o, n), "setattr": lambda o, n, v: setattr_(I, o, n, v), "print": lambda *a, **k: None, "id": lambda o: id(o),
         "type": b_type, "str": lambda x="": "<str>" if not isinstance(x, str) else x, "repr": lambda x: "<repr>",
         "callable": lambda x: isinstance(x, (FuncVal, ClassVal, Builtin, PartialVal, ExternalVal)),
         "issubclass": lambda a, b: I.repo.is_subclass(a.ci, b.ci) if isinstance(a, ClassVal) and isinstance(b, ClassVal) else (
